@@ -1,6 +1,7 @@
 import HbsModel.Registry
 import HbsModel.Lemmas.RM
 import HbsModel.Lemmas.Write
+import HbsModel.Lemmas.Induct
 import HbsModel.Generated.WriteSites
 /-
   C19  Output is streamed append-only; writer failures surface as errors.
@@ -113,5 +114,87 @@ theorem subexpr_output_private {α : Type} (x : RM α) (rc : RC) (out o' : Out)
     (h : outOf (RM.captured x rc out) = some o') : o' = out := by
   unfold RM.captured at h
   split at h <;> simp [outOf] at h <;> exact h.symm
+
+end Hbs.C19
+
+/-! ### the whole renderer is append-only: for EVERY template, helper, partial, decorator, data,
+    state and fuel (generic induction principle of Lemmas/Induct) -/
+namespace Hbs.C19
+open Hbs RM
+
+theorem outOfFuel_appendOnly {α : Type} : AppendOnly (RM.outOfFuel : RM α) := by
+  constructor; intro rc out o' h; simp [outOf] at h
+
+theorem throwR_appendOnly {α : Type} (r : RReason) : AppendOnly (RM.throwR r : RM α) := throw_appendOnly _
+
+theorem panic_appendOnly {α : Type} (s : String) : AppendOnly (RM.panic s : RM α) := by
+  constructor; intro rc out o' h; simp [outOf] at h
+
+theorem mapErr_appendOnly {α : Type} (x : RM α) (f : RenderError → RenderError) (hx : AppendOnly x) :
+    AppendOnly (RM.mapErr x f) := by
+  constructor
+  intro rc out o' h
+  unfold RM.mapErr at h
+  cases hr : x rc out with
+  | ok a rc1 o1 => rw [hr] at h; exact hx.ext rc out o' (by rw [hr]; exact h)
+  | err e o1 => rw [hr] at h; simp [outOf] at h; subst h; exact hx.ext rc out o1 (by simp [hr, outOf])
+  | panic s => rw [hr] at h; simp [outOf] at h
+  | fuel => rw [hr] at h; simp [outOf] at h
+
+theorem captured_appendOnly {α : Type} (x : RM α) : AppendOnly (RM.captured x) := by
+  constructor
+  intro rc out o' h
+  have := subexpr_output_private x rc out o' h
+  subst this; exact Extends.refl _
+
+theorem cleanup_appendOnly (x : RM Unit) (c : RC → RC) (hx : AppendOnly x) : AppendOnly (RM.withCleanup x c) := by
+  constructor
+  intro rc out o' h
+  unfold RM.withCleanup at h
+  cases hr : x rc out with
+  | ok a rc1 o1 => simp only [hr, outOf, Option.some.injEq] at h; subst h; exact hx.ext rc out o1 (by simp [hr, outOf])
+  | err e o1 => simp only [hr, outOf, Option.some.injEq] at h; subst h; exact hx.ext rc out o1 (by simp [hr, outOf])
+  | panic s => simp [hr, outOf] at h
+  | fuel => simp [hr, outOf] at h
+
+theorem navigate_appendOnly (root : Json) (segs : List PathSeg) (blocks : List Block) :
+    AppendOnly (navigate root segs blocks) := by
+  unfold navigate
+  simp only [RM.pure_def]
+  repeat' with_reducible first
+    | exact ret_appendOnly _
+    | exact throw_appendOnly _
+    | exact throwR_appendOnly _
+    | exact panic_appendOnly _
+    | split
+
+/-- append-only as a closed predicate -/
+def aoPred : RMPred where
+  P := fun x => AppendOnly x
+  ret := ret_appendOnly
+  bnd := bnd_appendOnly
+  get := get_appendOnly
+  modify := modify_appendOnly
+  throw := throw_appendOnly
+  outOfFuel := outOfFuel_appendOnly
+  write := write_appendOnly
+  mapErr := mapErr_appendOnly
+  captured := fun x _ => captured_appendOnly x
+  cleanup := cleanup_appendOnly
+  navigate := navigate_appendOnly
+
+/-- EVERY render computation only appends to the writer: whatever a render of ANY template has
+    handed over at the moment it ends – with Ok or with any error, the planted IO error included –
+    extends what had been handed over before; nothing is retracted or reordered. -/
+theorem render_appendOnly (reg : Registry) (root : Json) (fuel : Nat) (t : Tmpl) :
+    AppendOnly (renderTemplate reg root fuel t) := (aoPred.all reg root fuel).renderTemplate t
+
+/-- in particular the bytes accepted before a failure are a prefix (in write order) of … the bytes
+    accepted: the segments present at the start are still the oldest ones at the end. -/
+theorem render_keeps_prefix (reg : Registry) (root : Json) (fuel : Nat) (t : Tmpl) (rc : RC) (out o' : Out)
+    (h : outOf (renderTemplate reg root fuel t rc out) = some o') :
+    ∃ more, o'.segs = more ++ out.segs ∧ o'.failAt = out.failAt := by
+  obtain ⟨more, h1, _, h3⟩ := (render_appendOnly reg root fuel t).ext rc out o' h
+  exact ⟨more, h1, h3⟩
 
 end Hbs.C19
